@@ -94,8 +94,14 @@ def tr_series(w, input_names_hint=None):
     body = []
     for st in w.body:
         if isinstance(st, ast.Assign):
-            if len(st.targets) != 1 or not isinstance(st.targets[0], ast.Name) or st.targets[0].id != "start":
+            if len(st.targets) != 1 or not isinstance(st.targets[0], ast.Name):
                 bad(st, "unsupported assignment")
+            if st.targets[0].id != "start":
+                # any other assignment to a plain name is dropped by the compiler (_visit_Line removes every
+                # Assign, _preprocess_series reads only `start`): it has no meaning
+                if not isinstance(st.value, ast.Constant):
+                    bad(st, "unsupported assignment")
+                continue
             v = st.value
             if not isinstance(v, ast.Constant):
                 bad(st, "unsupported start value")
@@ -116,6 +122,9 @@ def tr_series(w, input_names_hint=None):
                     body.append(["Marker", "Herm"])
                 elif st.value.id == "antihermitian":
                     body.append(["Marker", "AntiHerm"])
+                elif st.value.id == "zero":
+                    # a bare `zero` line: result = _zero_sum(result, zero)
+                    body.append(["Line", "Default", ["EZero"]])
                 else:
                     bad(st, "unsupported bare name")
             else:
@@ -140,6 +149,8 @@ def tr_product(w):
         if isinstance(st, ast.Expr) and isinstance(st.value, ast.Name) and st.value.id == "hermitian":
             herm = True
             continue
+        if isinstance(st, ast.Expr) and isinstance(st.value, ast.Constant) and isinstance(st.value.value, str):
+            continue  # a string (comment) in a product body is ignored by _read_product
         bad(st, "unsupported statement in product definition")
     return dict(factors=name.split(" @ "), hermitian=herm)
 
@@ -161,7 +172,9 @@ def tr_function(fn):
                 series.append(tr_series(st))
         elif isinstance(st, ast.Return):
             v = st.value
-            if isinstance(v, ast.Constant) and isinstance(v.value, str):
+            if v is None:
+                outputs = []  # bare `return`: no outputs (_parse_return gives [])
+            elif isinstance(v, ast.Constant) and isinstance(v.value, str):
                 outputs = [v.value]
             elif isinstance(v, ast.Tuple) and all(isinstance(e, ast.Constant) and isinstance(e.value, str) for e in v.elts):
                 outputs = [e.value for e in v.elts]
